@@ -334,14 +334,35 @@ pub fn emit_state(out: &mut impl Write, vi: usize, st: &RawState, pieces: &[Vec<
             let mut t2 = [0u8; 4];
             let s2 = g.verif_get_state(&mut b2, &mut c2, &mut t2);
             let undisturbed = s2 == (phys, cs, len, tail_len) && b2 == b && c2 == c && t2 == t;
-            (lens, post, res, undisturbed)
+            // direct oracle C10: more permissive options never turn Ok into Err nor change the hash
+            let mut mono = true;
+            if opts.len() == 32 {
+                for o in 0..32usize {
+                    for o2 in 0..32usize {
+                        // same Q-ratio mode (bit 1); optimistic (bit0 = 0) is more permissive than conservative;
+                        // flags bits 2,3,4 only added
+                        let same_q = (o & 2) == (o2 & 2);
+                        let mode_ok = (o & 1) >= (o2 & 1);
+                        let flags_ok = (o & 0x1c) & !(o2 & 0x1c) == 0;
+                        if same_q && mode_ok && flags_ok && res[o].starts_with("ok:") && res[o2] != res[o] {
+                            mono = false;
+                        }
+                    }
+                }
+                // allowing quarter-empty implies allowing half-empty
+                for o in 0..32usize {
+                    if o & 16 != 0 && res[o] == "err:BucketsAreHalfEmpty" { mono = false; }
+                }
+            }
+            (lens, post, res, undisturbed && mono)
         });
         let head = format!("state {} {} {} {} {} {} {}", vi, opts_s, hex_u32s(&st.buckets), st.len, hex(&st.tail), hex(&st.cksum), pieces_str(pieces));
         match r {
             Ok((lens, post, res, undisturbed)) => {
                 writeln!(out, "{} => {} {} {}", head, post, join(&lens, ","), res.join(";")).unwrap();
                 if !undisturbed {
-                    writeln!(out, "ORACLE C03 finalize-disturbed-state {}", head).unwrap();
+                    writeln!(out, "ORACLE C03 finalize-disturbed-state-or-C10-monotonicity {}", head).unwrap();
+                    writeln!(out, "ORACLE C10 option-monotonicity-or-finalize-disturbed-state {}", head).unwrap();
                 }
             }
             Err(()) => writeln!(out, "{} => panic", head).unwrap(),
